@@ -4,6 +4,7 @@ import (
 	"bytes"
 	"crypto"
 	"crypto/md5"
+	"crypto/rand"
 	"crypto/rsa"
 	"crypto/sha1"
 	"crypto/x509"
@@ -935,6 +936,47 @@ func c10OddPassphrases(run *ev.Run, base func() *gen.Spec, verified *int64) {
 		if err := writeArmoredPrivateKey(keyPath, ent); err != nil {
 			run.Inconclusive(err.Error())
 			return
+		}
+		// the apk signer takes an RSA key in an encrypted PEM block: same passphrase
+		rsaKey, rerr := rsa.GenerateKey(rand.Reader, 2048)
+		if rerr != nil {
+			run.Inconclusive(rerr.Error())
+			return
+		}
+		//nolint:staticcheck // the legacy PEM encryption is what apk key files use
+		blk, rerr := x509.EncryptPEMBlock(rand.Reader, "RSA PRIVATE KEY", x509.MarshalPKCS1PrivateKey(rsaKey), []byte(pass), x509.PEMCipherAES256)
+		if rerr != nil {
+			run.Inconclusive(rerr.Error())
+			return
+		}
+		rsaPath := filepath.Join(dir, fmt.Sprintf("locked-%d.rsa.priv", pi))
+		_ = os.WriteFile(rsaPath, pem.EncodeToMemory(blk), 0o600)
+		{
+			s := base()
+			s.APK.Sig.KeyFile, s.APK.Sig.KeyName = rsaPath, "verif"
+			cfg, err := parseYAML(s.YAML(), func(k string) string {
+				if k == "NFPM_APK_PASSPHRASE" {
+					return pass
+				}
+				return ""
+			})
+			if err == nil {
+				info, _ := infoFor(&cfg, "apk")
+				res := packageInfo("apk", info)
+				run.Case(fmt.Sprintf("odd-passphrase|%q|apk", pass), true)
+				if res.Err != nil || res.Panic != "" {
+					run.Violate("C10/apk/signed-build-error/passphrase-with-special-characters", map[string]any{"passphrase": pass, "error": fmt.Sprint(res.Err, res.Panic)})
+				} else {
+					p := dec.Decode("apk", res.Bytes, false)
+					if len(p.GzMembers) < 2 || p.SigTar == nil || len(p.SigTar.Entries) == 0 {
+						run.Violate("C10/apk/signature-does-not-verify/passphrase-with-special-characters", map[string]any{"error": "no signature segment"})
+					} else if h := sha1.Sum(p.GzMembers[1].Raw); rsa.VerifyPKCS1v15(&rsaKey.PublicKey, crypto.SHA1, h[:], p.SigTar.Entries[0].Data) != nil {
+						run.Violate("C10/apk/signature-does-not-verify/passphrase-with-special-characters", map[string]any{"passphrase": pass})
+					} else {
+						atomic.AddInt64(verified, 1)
+					}
+				}
+			}
 		}
 		for _, f := range []string{"deb", "rpm"} {
 			s := base()
